@@ -286,7 +286,7 @@ fn null_grid_and_pipelines(rep: &Report) {
         }
     }
     // with @null a point outside all grids passes unchanged and is counted
-    for def in ["gridshift grids=test.datum, @null", "gridshift grids=@null", "gridshift grids=test.geoid, @null", "deformation grids=test.deformation, @null t_epoch=2000"] {
+    for def in ["gridshift grids=test.datum, @null", "gridshift grids=@null", "gridshift grids=@missing.gsb, @null", "gridshift grids=test.geoid, @null", "deformation grids=test.deformation, @null t_epoch=2000", "deformation grids=@null dt=1"] {
         let Ok(op) = ctx.op(def) else {
             rep.violation("grid operator with @null is rejected", json!({"def": def}));
             continue;
@@ -303,6 +303,14 @@ fn null_grid_and_pipelines(rep: &Report) {
             match apply_one(&ctx, op, &dir, t) {
                 Ok((1, out)) if bits4(out) == bits4(t) => {}
                 other => rep.violation(&format!("with the null grid a point outside all grids does not pass unchanged and counted / {} [{dn}]", def.split(' ').next().unwrap()), json!({"def": def, "input": t, "result": format!("{other:?}")})),
+            }
+            // ... but the null grid cannot tell where a NaN is: such a tuple is failed, whatever else the list holds
+            // (also when the null grid is all there is)
+            let mut nowhere = t;
+            nowhere[0] = f64::NAN;
+            match apply_one(&ctx, op, &dir, nowhere) {
+                Ok((0, out)) if out[0].is_nan() && out[1].is_nan() => {}
+                other => rep.violation(&format!("with the null grid a tuple at a NaN position is not failed (NaN, not counted) / {} [{dn}]", def.split(' ').next().unwrap()), json!({"def": def, "input": format!("{nowhere:?}"), "result": format!("{other:?}")})),
             }
         }
     }
